@@ -11,6 +11,8 @@ SHRINK_KEEP = ('factor', 'strict', 't0', 'tick')
 
 def _valid_drive(rt):
     for it in rt.get('drive') or []:
+        if it and it[0] == 'sync':
+            continue
         if not it or it[0] not in ('until', 'burn', 'steps', 'run') or (it[0] != 'run' and (len(it) < 2 or it[1] < 0)):
             return False
     return True
@@ -26,7 +28,7 @@ ASSUMPTIONS = ['with a ticking monotonic() the strict error is required only if 
                'than `factor` past the due instant, and forbidden only if the first clock value read inside step() is within '
                '`factor`; in between either behaviour is accepted', 'early sleeps still make progress (a sleep never returns '
                'without advancing the clock)']
-PROBES = ['stepped_again_after_too_slow', 'big_int_clock', 'until_in_idle_stretch', 'driven_by_run_until', 'burn_between_calls', 'burn', 'sleep_early', 'sleep_late', 'tick', 'sync', 'strict_error_expected', 'lag_exactly_factor', 'pre_burn',
+PROBES = ['run_until_abandoned', 'sync_between_calls', 'stepped_again_after_too_slow', 'big_int_clock', 'until_in_idle_stretch', 'driven_by_run_until', 'burn_between_calls', 'burn', 'sleep_early', 'sleep_late', 'tick', 'sync', 'strict_error_expected', 'lag_exactly_factor', 'pre_burn',
           'nonstrict_late', 'initial_time_nonzero']
 
 
@@ -114,11 +116,16 @@ def gen(rng, tier):
             if r < 0.5:
                 t = t + (rng.choice([1, 1, 2, 3]) if big else rng.choice([0.5, 1, 1, 2, 3]))
                 drive.append(['until', t])
+                if rng.random() < 0.3:
+                    drive.append(['sync'])     # the caller re-bases the pacing between two calls (after an error, say)
             elif r < 0.8:
                 drive.append(['burn', rng.choice(burns)])
             else:
                 drive.append(['steps', rng.randint(1, 5)])
     case['rt']['drive'] = drive
+    # a run(until=t) that raised ('too slow', or a failure of the program): the caller either steps on, or simply issues
+    # its next call
+    case['rt']['after_error'] = rng.choice(['drain', 'next', 'next'])
     return case
 
 
@@ -278,6 +285,10 @@ def run(case):
             if it[0] == 'burn':
                 wall.burn(it[1])          # wall time passing between two calls of the driver
                 stats['burn_between_calls'] = 1
+            elif it[0] == 'sync':
+                env.sync()
+                obs.real_start = wall.last_returned if wall.last_returned is not None else wall.t
+                stats['sync_between_calls'] = 1
             elif it[0] == 'until':
                 if it[1] <= env.now:
                     continue
@@ -286,6 +297,10 @@ def run(case):
                 try:
                     env.run(until=it[1])
                     done = True
+                    if env.now != it[1]:
+                        viol.append(('C20.1', 'run(until=%r) returned with now=%r (a plain Environment stops exactly at the '
+                                     'requested instant)' % (it[1], env.now)))
+                        break
                     # the stop at it[1] is itself an occurrence due at that instant: the call may not return (with
                     # now == it[1]) before the wall clock has reached that instant's due time
                     due_wall = obs.real_start + (it[1] - t0) * factor
@@ -296,7 +311,9 @@ def run(case):
                     if env.peek() > it[1]:
                         stats['until_in_idle_stretch'] = 1
                 except (Exception, HarnessAbort):
-                    pass
+                    stats['run_until_abandoned'] = 1
+                    if rt.get('after_error') == 'next':
+                        done = True
                 while not done and not obs.stop and obs.steps < 4000:
                     # an exception escaped run(until): go on stepping until its stop event ends the call
                     try:
